@@ -1463,9 +1463,14 @@ class CanUnprotect(BaseSecurityContext):
     def _uncompress(option_data, payload):
         if option_data == b"":
             firstbyte = 0
+            tail = b""
         else:
             firstbyte = option_data[0]
             tail = option_data[1:]
+            if firstbyte == 0:
+                # RFC 8613 Section 6.1: if all flag bits are zero, the option
+                # value is empty
+                raise DecodeError("Protected data without any flags is not empty")
 
         unprotected = {}
 
@@ -1496,6 +1501,10 @@ class CanUnprotect(BaseSecurityContext):
         if firstbyte & COMPRESSION_BIT_K:
             kid = tail
             unprotected[COSE_KID] = kid
+        elif tail:
+            # Without a KID that extends to the end of the option, nothing may
+            # follow the announced fields
+            raise DecodeError("Protected data extends beyond the announced fields")
 
         if firstbyte & COMPRESSION_BIT_GROUP:
             # Not really; As this is (also) used early on (before the KID
